@@ -65,12 +65,12 @@ T0 = W.T0
 # per-shard schedule: (path, mix); cost-balanced
 BLOCK = (
     ("act", "uag"), ("dir", None), ("act", "sq"), ("dir", None), ("act", "der"), ("dir", None), ("act", "all"), ("dir", None),
-    ("act", "gg"), ("dir", None), ("act", "sq"), ("dir", None), ("act", "der"), ("dir", None), ("act", "uag"), ("dir", None),
+    ("act", "gg"), ("dir", None), ("act", "sq"), ("dir", None), ("act", "der"), ("dir", None), ("act", "real"), ("dir", None),
 )
 
 
 def plan(tier, seed):
-    n = 32 if tier == "quick" else 420
+    n = 48 if tier == "quick" else 900
     return [{"shard": i, "cases": n} for i in range(NSHARDS)]
 
 
@@ -661,7 +661,12 @@ def build_sq(rng):
     interval = rng.choice(["1min", "1min", "1min", "5min"])
     k = 5 if interval == "5min" else 1
     n = rng.choice([16, 24, 40])
-    sw = W.SqueethWorld(rng, n=n * k, kind=rng.choice(["calm", "calm", "spike", "crash", "wick"]), liq_exp=rng.uniform(19, 23))
+    sw_kind = rng.choice(["calm", "calm", "spike", "crash", "wick"])
+    thin = ["1.55", "1.7", "2.2"]
+    redeem_variant = rng.random() < 0.3  # a thin vault holding LP while ETH rises: the bar loop redeems the position
+    if redeem_variant:
+        sw_kind, thin = "crash", ["1.52", "1.58"]
+    sw = W.SqueethWorld(rng, n=n * k, kind=sw_kind, liq_exp=rng.uniform(19, 23))
     um, sm = sw.markets("uni", "squeeth")
     own = rng.random() < 0.5
     if own:
@@ -678,7 +683,7 @@ def build_sq(rng):
 
     def f_open(strat):
         eth = Decimal(rng.choice([10, 25]))
-        osq = sm.collateral_amount_to_osqth(eth, Decimal(rng.choice(["2.2", "3", "5"])))
+        osq = sm.collateral_amount_to_osqth(eth, Decimal(rng.choice(thin if sw_kind in ("crash", "spike", "wick") else ["2.2", "3", "5"])))
         return G.Op("squeeth", "open_deposit_mint", "forced", lambda: state.__setitem__("vault", sm.open_deposit_mint(eth, G.q(osq))[0]))
 
     def f_add(strat):
@@ -706,13 +711,13 @@ def build_sq(rng):
     b0 = rng.randint(0, 2)
     forced.setdefault((b0, rng.choice(["before_bar", "on_bar"])), []).append(f_open)
     forced.setdefault((b0 + 1, rng.choice(["before_bar", "on_bar", "after_bar"])), []).append(f_add)
-    b2 = b0 + rng.randint(2, 6)
+    b2 = b0 + (2 if redeem_variant else rng.randint(2, 6))
     forced.setdefault((b2, rng.choice(["before_bar", "on_bar", "after_bar"])), []).append(f_dep)
-    if rng.random() < 0.7:
+    if not redeem_variant and rng.random() < 0.7:
         forced.setdefault((b2 + rng.randint(1, 8), rng.choice(["before_bar", "on_bar", "after_bar"])), []).append(f_wd)
     return {"markets": [um, sm] if rng.random() < 0.5 else [sm, um], "kits": kits, "frame": frame, "quote": _usd(), "assets": assets,
             "interval": interval, "index": sw.index, "forced": forced,
-            "info": {"own_prices": own, "interval": interval, "kind": "squeeth"}}
+            "info": {"own_prices": own, "interval": interval, "path": sw_kind, "redeem_variant": redeem_variant}}
 
 
 def build_der(rng, extra_markets=False):
@@ -722,8 +727,13 @@ def build_der(rng, extra_markets=False):
     missing = ()
     if rng.random() < 0.15:
         missing = (T0 + timedelta(hours=1),)
-    dw = W.DeribitWorld(rng, hours=hours, n_instr=rng.randint(2, 5), token=token, size_kind=rng.choice(["int", "float", "mixed"]),
-                        closed_prob=0.1, missing_hours=missing)
+    n_instr = rng.randint(2, 5)
+    # some options expire at the 01:00 bar (bought at 00:00 or in the same bar before update()), so that settlement
+    # changes the holdings inside the bar loop
+    exps = [T0 + rng.choice([timedelta(hours=1), timedelta(hours=1), timedelta(hours=2), timedelta(hours=26), timedelta(days=3),
+                             timedelta(minutes=30)]) for _ in range(n_instr)]
+    dw = W.DeribitWorld(rng, hours=hours, n_instr=n_instr, token=token, size_kind=rng.choice(["int", "float", "mixed"]),
+                        closed_prob=0.1, missing_hours=missing, expiries=exps)
     dm = dw.market("deribit")
     off, n = rng.choice([(0, 75), (35, 40), (50, 30), (50, 75), (55, 20)])
     start = T0 + timedelta(minutes=off)
@@ -836,7 +846,60 @@ def build_gg(rng):
             "info": {"own_prices": own, "quote": quote.name}}
 
 
-BUILDERS = {"uag": build_uag, "sq": build_sq, "der": build_der, "all": build_all, "gg": build_gg}
+class _RiskStub:
+    """what opsgen.AaveKit needs from a world"""
+
+    def __init__(self, tokens, collateral=True, borrow=True):
+        self.tokens = list(tokens)
+        self.risk = {t.name: {"collateral": collateral, "borrow": borrow} for t in tokens}
+
+
+def build_real(rng):
+    """slices of /repo/tests/data read by demeter's own loaders: polygon USDC/WETH pool + polygon aave WETH + the
+    ethereum oSQTH/WETH pool + the squeeth controller, one day of August 2023"""
+    from datetime import date
+
+    from demeter import ChainType, MarketInfo, MarketTypeEnum, TokenInfo
+    from demeter.aave import AaveV3Market
+    from demeter.squeeth import SqueethMarket
+    from demeter.uniswap import UniLpMarket, UniV3Pool
+
+    from .. import env
+
+    day = date(2023, 8, rng.choice([14, 15, 16, 17]))
+    n = rng.choice([30, 60, 120])
+    a = rng.randrange(0, 1440 - n)
+    usdc, weth = TokenInfo("USDC", 6), TokenInfo("WETH", 18, "0x7ceb23fd6bc0add59e62ac25578270cff1b9f619")
+    um = UniLpMarket(MarketInfo("uni", MarketTypeEnum.uniswap_v3), UniV3Pool(usdc, weth, 0.05, usdc), data_path=env.TESTDATA)
+    um.load_data("polygon", "0x45dda9cb7c25131df268515131f647d726f50608", day, day)
+    w2, osq = TokenInfo("weth", 18), TokenInfo("osqth", 18)
+    um2 = UniLpMarket(MarketInfo("sqpool", MarketTypeEnum.uniswap_v3), UniV3Pool(w2, osq, 0.3, w2), data_path=env.TESTDATA)
+    um2.load_data("ethereum", "0x82c427adfdf2d245ec51d8046b41c4ee87f0d29c", day, day)
+    sm = SqueethMarket(MarketInfo("squeeth", MarketTypeEnum.squeeth), um2, data_path=env.TESTDATA)
+    sm.load_data(day, day)
+    am = AaveV3Market(MarketInfo("aave", MarketTypeEnum.aave_v3), env.REPO + "/tests/aave_risk_parameters/demo.csv", tokens=[weth],
+                      data_path=env.TESTDATA)
+    am.load_data(ChainType.polygon, [weth], day, day)
+    for m in (um, um2, sm, am):
+        m.data = m.data.iloc[a:a + n].copy()
+    index = [t.to_pydatetime() for t in um.data.index]
+    sq_px = sm.get_price_from_data().map(W.D)
+    sq_px.index.name = None
+    equal = rng.random() < 0.5
+    if equal:  # account quote = the polygon pool's quote
+        pdf, quote = um.get_price_from_data()
+        frame = pd.concat([pdf.map(W.D), sq_px[["OSQTH"]]], axis=1)
+    else:
+        frame = sq_px.copy()
+        frame["USDC"] = W.D(rng.choice(["1", "0.9994", "1.0011"]))
+        quote = _usd()
+    assets = {usdc: Decimal(rng.choice([0, 10**5, 10**6])), weth: Decimal(rng.choice([40, 400])), osq: Decimal(rng.choice([0, 25]))}
+    kits = [G.UniKit(um), G.AaveKit(am, _RiskStub([weth])), G.SqueethKit(sm, um2), G.SqueethKit(sm, um2), G.UniKit(um2)]
+    return {"markets": [um, am, um2, sm], "kits": kits, "frame": frame, "quote": quote, "assets": assets, "interval": "1min",
+            "index": index, "forced": {}, "info": {"day": str(day), "offset": a, "bars": n, "equal_quote": equal}}
+
+
+BUILDERS = {"uag": build_uag, "sq": build_sq, "der": build_der, "all": build_all, "gg": build_gg, "real": build_real}
 
 
 def act_case(mon, rng, c, mix):
